@@ -43,6 +43,13 @@ def _expr(rng, depth=0):
     if r < 0.82:
         return rng.choice(['f"a{x}b"', "f'{x!r:>{y}}'", 'f"""m\n{x}\nn"""', "f'{x}' 'lit'", "'a' 'b'", "'a' \\\n    'b'",
                            "('p'\n 'q')", "rf'\\d{x}'", 'f"{x}" f"{y}"', 'f"{x=}"', 'f"{x = !r:>5} z {y=}"'])
+    if r < 0.845:
+        # newer / rarer expression syntax
+        return rng.choice(["(w := %s)" % _expr(rng, depth + 1), "[*x, *y]", "{**x, 'k': y}", "f(*x, **y)",
+                           "[i for i in x if (j := i)]", "{k: v for k, v in x}", "(i async for i in x)" if False else "(i for i in x)",
+                           "f'{x!r:{y}} {f\"{y}\"}'", "f'{\"nested\" + f\"{x}\"}'", "x[1:2, ...]", "x @ y", "not x is None",
+                           "é_name", "変数", "x if y else (yield)" if False else "-x ** 2",
+                           "(%s,\n %s,\n)" % (_expr(rng, 3), _expr(rng, 3)), "'" + "long " * 40 + "'"])
     if r < 0.88:
         return "{%s: %s}" % (_expr(rng, depth + 1), _expr(rng, depth + 1))
     if r < 0.93:
@@ -86,7 +93,9 @@ def gen_simple(rng, allow_import=True):
     if r < 0.75:
         return "%s += %s" % (_name(rng), _expr(rng, 2)), False
     if r < 0.80:
-        return rng.choice(["pass", "del x", "assert x, 'm'", "global gg", "x = y = 0", "a, b = 1, 2"]), False
+        return rng.choice(["pass", "del x", "assert x, 'm'", "global gg", "x = y = 0", "a, b = 1, 2",
+                           "type Alias = int", "type Gen[T] = list[T]", "a, *rest = x", "x.attr: int", "x[0]: 'T' = 1",
+                           "é = 1", "del x.a, y[0]", "(x) = 1", "x: int", "raise E from None" if False else "x = yield_ = 1"]), False
     if r < 0.88:
         q = rng.choice(["'''", '"""', "'", '"'])
         if len(q) == 3:
@@ -127,7 +136,7 @@ def gen_compound(rng, depth=0, ind=""):
     deco = ""
     if r < 0.5 and rng.random() < 0.4:
         k = rng.randint(1, 2)
-        decos = [rng.choice(["@dec", "@dec(1)", "@a.b", "@dec(x,\n     y)", "@ dec"]) for _ in range(k)]
+        decos = [rng.choice(["@dec", "@dec(1)", "@a.b", "@dec(x,\n     y)", "@ dec", "@decs[0]", "@(lambda f: f)", "@a.b(c)(d)"]) for _ in range(k)]
         deco = "".join(ind + d + rng.choice(["\n", "\n", "  # dc\n", "\n" + ind + "# between decorators\n"]) for d in decos)
     if r < 0.25:
         args = rng.choice(["", "a", "a, b=1", "*args, **kw", "a, /, b, *, c=2", "self", "a: int = 3"])
@@ -156,6 +165,25 @@ def gen_compound(rng, depth=0, ind=""):
         return s
     if r < 0.92:
         return ind + "with %s as %s:\n%s" % (_expr(rng, 3), _name(rng), gen_body(rng, depth, ind2))
+    if r < 0.96:
+        k = rng.random()
+        if k < 0.3:
+            return (ind + "match %s:\n" % _expr(rng, 3) + ind2 + "case [a, *b] if a:\n" + gen_body(rng, depth, ind2 + "    ") + "\n"
+                    + ind2 + "case {'k': v, **kw} | C(x=1):\n" + gen_body(rng, depth, ind2 + "    ") + "\n"
+                    + ind2 + "case _:\n" + gen_body(rng, depth, ind2 + "    "))
+        if k < 0.45:
+            return (ind + "try:\n" + gen_body(rng, depth, ind2) + "\n" + ind + "except* (A, B) as eg:\n" + gen_body(rng, depth, ind2))
+        if k < 0.6:
+            return ind + "def gen[T: int, *Ts, **P](a: T, /, b, *, c=2) -> T:\n" + gen_body(rng, depth, ind2)
+        if k < 0.7:
+            return ind + "class Box[T](Base[T], metaclass=M):\n" + gen_body(rng, depth, ind2)
+        if k < 0.8:
+            return (ind + "async def co():\n" + ind2 + "async with a as b, c as d:\n" + gen_body(rng, depth, ind2 + "    ") + "\n"
+                    + ind2 + "async for i in x:\n" + gen_body(rng, depth, ind2 + "    ") + "\n" + ind2 + "return [j async for j in x if await j]")
+        if k < 0.9:
+            return (ind + "def outer():\n" + ind2 + "v = 1\n" + ind2 + "def inner():\n" + ind2 + "    nonlocal v\n" + ind2 + "    global gg\n"
+                    + gen_body(rng, depth, ind2 + "    ") + "\n" + ind2 + "return inner")
+        return (ind + "with (\n" + ind2 + "open(x) as f1,\n" + ind2 + "open(y) as f2,\n" + ind + "):\n" + gen_body(rng, depth, ind2))
     # one-line compound statements
     return ind + rng.choice(["if x: pass", "for i in y: pass", "while 0: x = 1; y = 2", "class E: pass",
                              "def k(): return 1", "with a: pass", "if x: import os", "try: pass\n" + ind + "except: pass"])
@@ -266,7 +294,7 @@ def toplevel_starts(text: str):
             dline = lines[d.lineno - 1]
             cc = char_col(dline, d.col_offset)
             j = cc - 1
-            while j >= 0 and dline[j] in " \t\f":
+            while j >= 0 and dline[j] in " \t\f(":     # a parenthesised decorator expression starts inside its parens
                 j -= 1
             assert j >= 0 and dline[j] == "@", (dline, cc)
             out.append((d.lineno, j))
